@@ -458,6 +458,21 @@ pub fn make_tar(members: &[(&str, &[u8], u8)]) -> Vec<u8> {
     b.into_inner().unwrap()
 }
 
+/// Like make_tar, with a size field that may lie (the checksum is correct).
+pub fn make_tar_claiming(members: &[(&str, &[u8], Option<u64>)]) -> Vec<u8> {
+    let mut b = tar::Builder::new(Vec::new());
+    for (name, data, claim) in members {
+        let mut h = tar::Header::new_gnu();
+        h.set_size(claim.unwrap_or(data.len() as u64));
+        h.set_mode(0o644);
+        h.set_entry_type(tar::EntryType::Regular);
+        h.set_path(name).unwrap();
+        h.set_cksum();
+        b.append(&h, *data).unwrap();
+    }
+    b.into_inner().unwrap()
+}
+
 /// Open a SigMF source on `path` and run it to the end.
 fn run_sigmf(path: &std::path::Path) -> Result<(), (String, String)> {
     let st = Start::plain();
@@ -575,6 +590,36 @@ fn sigmf_family(rep: &mut Report, thorough: bool, only: Option<&Value>) {
             let path = dir.join("arch.sigmf");
             std::fs::write(&path, &bytes[..cut]).unwrap();
             case(rep, d, run_sigmf(&path));
+        }
+    }
+    // 3. Members whose header lies about their size (valid checksum).
+    let lies: Vec<u64> = vec![
+        0,
+        1,
+        meta_b.len() as u64 - 1,
+        meta_b.len() as u64 + 1,
+        meta_b.len() as u64 + 600,
+        1 << 31,
+        1 << 63,
+        (1 << 63) + 12345,
+        u64::MAX - 4096,
+    ];
+    for which in ["meta", "data"] {
+        for lie in &lies {
+            for meta_first in [true, false] {
+                let d = json!({"kind": "archive-size-lie", "member": which, "claimed": lie, "meta_first": meta_first});
+                if let Some(o) = only {
+                    if *o != d {
+                        continue;
+                    }
+                }
+                let m = ("a.sigmf-meta", meta_b, if which == "meta" { Some(*lie) } else { None });
+                let dt = ("a.sigmf-data", &data[..], if which == "data" { Some(*lie) } else { None });
+                let bytes = if meta_first { make_tar_claiming(&[m, dt]) } else { make_tar_claiming(&[dt, m]) };
+                let path = dir.join("lie.sigmf");
+                std::fs::write(&path, &bytes).unwrap();
+                case(rep, d, run_sigmf(&path));
+            }
         }
     }
     let _ = std::fs::remove_dir_all(&dir);
